@@ -184,4 +184,37 @@ theorem digitsN_ofDigits {x : Bytes} (h : x.all isDigit = true) : digitsN x.leng
     have e2 : (ofDigits x * 10 + dval b) % 10 = dval b := by omega
     rw [e1, e2, ih h.1, dchr_dval hb]
 
+
+/-- a digit string without leading zero is the rendering of its value -/
+theorem render_ofDigits_of_head_ne {b : UInt8} {r : Bytes} (hb : b ≠ c0)
+    (h : (b :: r).all isDigit = true) : render (ofDigits (b :: r)) = b :: r := by
+  simp only [List.all_cons, Bool.and_eq_true] at h
+  have h1 : 1 ≤ dval b := by
+    have := (dval_eq_zero_iff h.1).not.mpr hb; omega
+  rw [ofDigits_cons, render_mul_pow_add h1 _ _ (ofDigits_lt h.2), render_lt (dval_lt_ten h.1),
+    dchr_dval h.1, digitsN_ofDigits h.2]
+  rfl
+
+/-- if rendering the value of a non-empty digit string does not shorten it, it is that string -/
+theorem render_ofDigits_eq_of_length {x : Bytes} (h : x.all isDigit = true)
+    (hl : (render (ofDigits x)).length = x.length) : render (ofDigits x) = x := by
+  have hd := trimLeft0_decomp x
+  have hv := ofDigits_trimLeft0 x
+  cases ht : trimLeft0 x with
+  | nil =>
+    rw [ht, ofDigits_nil] at hv
+    rw [← hv, render_zero] at hl ⊢
+    rw [ht] at hd
+    simp only [List.length_nil, Nat.sub_zero, List.append_nil] at hd
+    rw [hd, ← hl]; rfl
+  | cons b r =>
+    have hb := trimLeft0_head x b r ht
+    have hall : (b :: r).all isDigit = true := by rw [← ht]; exact trimLeft0_all h
+    have hr := render_ofDigits_of_head_ne hb hall
+    rw [ht] at hv hd
+    rw [← hv, hr] at hl ⊢
+    have : x.length - (b :: r).length = 0 := by omega
+    rw [this] at hd
+    rw [hd]; rfl
+
 end MW.Dec
